@@ -150,6 +150,13 @@ Definition clear_obj (o : nat) (w : world) : world := set_wl w (drop_obj o (wl w
 (* number of nodes a copy of object o has to build *)
 Definition obj_size (o : nat) (w : world) : nat := fold_right (fun e n => length (snd e) + n) 0 (obj_entries o (wl w)).
 Definition obj_keys (o : nat) (w : world) : nat := length (obj_entries o (wl w)).
+(* per-key fault points of a copy: one round per list the abstract world sees under the object, plus rounds
+   for lists it does not see — the EMPTY callback list a failed appendListener leaves under a new key, the
+   empty homogeneous list a HeterCallbackList creates when it is merely enumerated or invoked.  They hold no
+   listener (Hidden), but copying them allocates; only the KIND of a failing point is taken from the real run,
+   so surplus points are harmless while missing ones would be reported (ENoSuchPoint). *)
+Definition hidden_entries : nat := 4.
+Definition key_points (o : nat) (w : world) : nat := obj_keys o w + hidden_entries.
 
 (* pending events *)
 Fixpoint ins_sorted (e : nat * Z) (l : list (nat * Z)) : list (nat * Z) :=
@@ -344,7 +351,7 @@ Definition prof_disp_remove (ncmp d key reg : nat) : list step :=
    CallbackList copy construction); a queue copies no events *)
 Definition prof_disp_copy_ctor_with (delegates : bool) (dst src : nat) (w : world) : list step :=
   if delegates then
-    [Enter GScratch] ++ flat_map (fun _ => [Fault FAlloc; Fault FUserCopy]) (seq 0 (obj_keys src w))
+    [Enter GScratch] ++ flat_map (fun _ => [Fault FAlloc; Fault FUserCopy]) (seq 0 (key_points src w))
     ++ clone_steps (obj_size src w) ++ [Commit (copy_obj src dst)]
   else unknown_shape.
 Definition prof_disp_copy_ctor := prof_disp_copy_ctor_with GenExn.cl_copy_ctor_delegates_then_clones.
@@ -354,7 +361,7 @@ Definition prof_disp_copy_ctor := prof_disp_copy_ctor_with GenExn.cl_copy_ctor_d
    is valid but unspecified when a copy throws.  The property demands no more for these. *)
 Definition prof_disp_assign (dst src : nat) (w : world) : list step :=
   Commit (mark_unspecified dst)
-  :: flat_map (fun _ => [Fault FAlloc; Fault FUserCopy]) (seq 0 (obj_keys src w))
+  :: flat_map (fun _ => [Fault FAlloc; Fault FUserCopy]) (seq 0 (key_points src w))
   ++ flat_map (fun _ => [Fault FAlloc; Fault FUserCopy]) (seq 0 (obj_size src w))
   ++ [Commit (copy_obj src dst)].
 
@@ -435,7 +442,7 @@ Definition prof_peek := prof_peek_with GenExn.eq_peek_does_not_touch_queue.
 (* HeterCallbackList: copy construction clones each homogeneous list (make_shared + CallbackList
    copy construction); copy assignment is copy-and-swap and must not be noexcept *)
 Definition prof_hcl_copy_steps (src : nat) (w : world) : list step :=
-  [Enter GScratch] ++ flat_map (fun _ => [Fault FAlloc]) (seq 0 (obj_keys src w)) ++ clone_steps (obj_size src w).
+  [Enter GScratch] ++ flat_map (fun _ => [Fault FAlloc]) (seq 0 (key_points src w)) ++ clone_steps (obj_size src w).
 Definition prof_hcl_assign_with (copy_then_swap : bool) (dst src : nat) (w : world) : list step :=
   if copy_then_swap then prof_hcl_copy_steps src w ++ [Commit (copy_obj src dst); Hidden S] else unknown_shape.
 Definition op_hcl_assign_with (ne copy_then_swap : bool) (dst src : nat) (w : world) : operation :=
@@ -516,7 +523,8 @@ Inductive fev :=
 | EPending (q : nat) (es : list (nat * Z))
 | ERecords (r n : nat)
 | ELive (callbacks payloads : nat)
-| ELiveUnspecified.
+| ELiveUnspecified
+| EMustPropagate.                            (* specification side: std::terminate is never an allowed outcome *)
 
 Definition total_callbacks (w : world) : nat := fold_right (fun e n => length (snd e) + n) 0 (wl w).
 Definition total_payloads (w : world) : nat := fold_right (fun e n => length (snd e) + n) 0 (wq w).
@@ -599,7 +607,7 @@ Definition f_step_spec (st : fstate) (c : fcmd) : fstate :=
   | FFault MNoFault o => (spec_effect o w, EOutcome MNoFault :: tr, false)
   | FFault (MExn k) o =>
       (match o with ODAssign dst _ => mark_unspecified dst w | _ => w end, EOutcome (MExn k) :: tr, false)
-  | FFault MTerminated o => (w, ENoSuchPoint :: tr, false)     (* the property never allows termination *)
+  | FFault MTerminated o => (w, EMustPropagate :: tr, false)
   | _ => f_step st c
   end.
 
